@@ -103,6 +103,10 @@ func c07Scenarios(tier string) []*Scenario {
 	mk := func(name string, build func(w *world.World) []Thread) *Scenario {
 		return &Scenario{Name: "pool/" + name, Class: "dppool", Cfg: cfg, Bounds: b, Weight: 3, Build: build, Final: quiesce}
 	}
+	b4 := map[string]int{"preempt": b["preempt"] - 1, "fault": b["fault"]}
+	mk4 := func(name string, build func(w *world.World) []Thread) *Scenario {
+		return &Scenario{Name: "pool/" + name, Class: "dppool", Cfg: cfg, Bounds: b4, Weight: 3, Build: build, Final: quiesce}
+	}
 	setup := func(w *world.World) {
 		w.SetDeployment("ns", "d", 2)
 		w.SetDeployment("ns", "e", 2)
@@ -128,7 +132,7 @@ func c07Scenarios(tier string) []*Scenario {
 				{"poolpost", func() { opStart(w); w.OpBound["poolpost"] = size; w.PoolPost("pl", size, true) }},
 				{"sched-x", schedOps(w, x.Key(), 2)}, {"sched-y", schedOps(w, y.Key(), 2)}}
 		}))
-		out = append(out, mk(fmt.Sprintf("size%d/unbind-and-preempt", size), func(w *world.World) []Thread {
+		out = append(out, mk4(fmt.Sprintf("size%d/unbind-and-preempt", size), func(w *world.World) []Thread {
 			setup(w)
 			w.SetPoolObj("pl", size)
 			o, x, y := poolPod("d", 1), poolPod("d", 0), poolPod("e", 0)
